@@ -158,7 +158,7 @@ def check(res, rng, dump, cfg, unfiltered, other_dump):
         if reuse_stream and d is dump:
             same_stream.seek(0)
             return same_stream
-        return io.BytesIO(d['data'])
+        return wire.stream(d['data'])
     for i, req in enumerate(requests):
         src = dump
         if req == 'traces' and i > 0 and rng.random() < 0.3 and other_dump is not None:
